@@ -337,10 +337,18 @@ def obligations(encs, tier):
             secs, nanos = e.inputs[0][1], e.inputs[1][1]
             pre = _pre_ts(secs, nanos)
             o = dict(e.outputs)
+            # thorough tier: z3 cannot do the whole range (> 900 s) but does a century in about a minute (README.md)
+            century = 3155760000
+            chunks = []
+            lo = 0
+            while lo <= MAX_SECS:
+                hi = min(lo + century - 1, MAX_SECS)
+                chunks.append(("secs %d..=%d" % (lo, hi), b_and(i_le(lo, secs), i_le(secs, hi))))
+                lo = hi + 1
             q = [Query("O3_from_parts_panic_free_on_to_parts", e, [pre, _any(e.panics("from_parts"))], fast_z3=False),
                  Query("O3_round_trip", e, [pre, e.mid_guard,
                                             b_not(b_and(e.ret_guard, i_eq(o["some"], 1), i_eq(o["secs"], secs), i_eq(o["nanos"], nanos)))],
-                       fast_z3=False)]
+                       fast_z3=False, z3_chunks=chunks)]
 
         def r3(m):
             return (RUST_HEAD + "fn main() {\n" + _rust_ts("ts", m["secs"], m["nanos"]) +
